@@ -43,9 +43,9 @@ PROPS["C02"] = {
     "units": [{
         "pkg": "primitives/ed25519", "configs": ALL4,
         "tests": {
-            "TestC02Sign": T(1600, 48000, shards={"quick": 8, "thorough": 16}, env=_C02_ENV),
-            "TestC02Invalid": T(6000, 200000, env=_C02_ENV),
-            "TestC02KeyGen": T(1600, 32000, shards={"quick": 2, "thorough": 8}, env=_C02_ENV),
+            "TestC02Sign": T(3200, 48000, shards={"quick": 8, "thorough": 16}, env=_C02_ENV),
+            "TestC02Invalid": T(12000, 200000, env=_C02_ENV),
+            "TestC02KeyGen": T(3200, 32000, shards={"quick": 2, "thorough": 8}, env=_C02_ENV),
         },
     }],
 }
